@@ -10,6 +10,10 @@ import GSV.Lemmas.Incompr
 import Mathlib.Analysis.SpecialFunctions.Integrals.Basic
 import Mathlib.MeasureTheory.Integral.Bochner.Basic
 import Mathlib.MeasureTheory.Measure.Typeclasses.Probability
+import Mathlib.Probability.ProbabilityMassFunction.Integrals
+import Mathlib.Probability.Distributions.Uniform
+import Mathlib.MeasureTheory.Integral.Prod
+import Mathlib.MeasureTheory.Measure.Lebesgue.Basic
 namespace GSV.Props.C16
 open GSV GSV.Props GSV.Incompr GSV.Summator Finset MeasureTheory
 
@@ -190,6 +194,30 @@ theorem mean_given_modes {Ω : Type} [MeasurableSpace Ω] (μ : Measure Ω) [IsP
     ring
   rw [sum_eq_zero hz, e1_real]
   simp
+
+/-- two fair coins: a concrete probability space carrying two uncorrelated ±1 amplitudes -/
+noncomputable def coin2 : Measure (Bool × Bool) := (PMF.uniformOfFintype (Bool × Bool)).toMeasure
+
+noncomputable instance : IsProbabilityMeasure coin2 := by unfold coin2; infer_instance
+
+theorem integral_coin2 (f : Bool × Bool → ℝ) :
+    ∫ ω, f ω ∂coin2 = (f (true, true) + f (true, false) + f (false, true) + f (false, false)) / 4 := by
+  unfold coin2
+  rw [PMF.integral_eq_sum]
+  simp only [PMF.uniformOfFintype_apply, Fintype.sum_prod_type, Fintype.sum_bool, smul_eq_mul]
+  simp
+  ring
+
+/-- ±1 -/
+def sgn (b : Bool) : ℝ := if b then 1 else -1
+
+/-- the hypotheses of `mean_given_modes` are satisfiable by non-constant amplitudes -/
+example (meanU var : ℝ) (k : Nat → Nat → ℝ) (x : Nat → ℝ) :
+    ∫ ω, genField meanU var k (fun _ => sgn ω.1) (fun _ => sgn ω.2) 2 1 0 x ∂coin2 = meanU * 1 := by
+  have := mean_given_modes coin2 meanU var k (dim := 2) (d := 0) 1 (by norm_num)
+    (fun _ ω => sgn ω.1) (fun _ ω => sgn ω.2) (fun _ _ => Integrable.of_finite) (fun _ _ => Integrable.of_finite)
+    (fun _ _ => by rw [integral_coin2]; simp [sgn]) (fun _ _ => by rw [integral_coin2]; simp [sgn]) x
+  simpa using this
 
 /-! ### variance split over directions -/
 
@@ -413,5 +441,208 @@ theorem variance_given_modes {Ω : Type} [MeasurableSpace Ω] (μ : Measure Ω)
     · simp [hij]
   simp only [hfield]
   rw [integral_const_mul, integral_sq_sum_orthonormal μ N _ ξ hint horth]
+
+/-- the hypotheses of `variance_given_modes` are satisfiable (two independent fair ±1 coins) -/
+example (meanU var : ℝ) (hvar : 0 ≤ var) (k : Nat → Nat → ℝ) (x : Nat → ℝ) :
+    ∫ ω, (genField meanU var k (fun _ => sgn ω.1) (fun _ => sgn ω.2) 2 1 0 x - meanU * e1 0) ^ 2 ∂coin2
+      = meanU ^ 2 * (var / ((1:ℕ):ℝ)) * ∑ j ∈ range 1, proj k 2 j 0 ^ 2 :=
+  variance_given_modes coin2 meanU var hvar k (dim := 2) (d := 0) 1 (by norm_num)
+    (fun _ ω => sgn ω.1) (fun _ ω => sgn ω.2) (fun _ _ => MemLp.of_discrete) (fun _ _ => MemLp.of_discrete)
+    (fun i hi j hj => by
+      obtain rfl : i = 0 := by omega
+      obtain rfl : j = 0 := by omega
+      rw [integral_coin2]; simp [sgn]; norm_num)
+    (fun i hi j hj => by
+      obtain rfl : i = 0 := by omega
+      obtain rfl : j = 0 := by omega
+      rw [integral_coin2]; simp [sgn]; norm_num)
+    (fun i hi j hj => by rw [integral_coin2]; simp [sgn]) x
+
+/-! ### random modes, independent of the amplitudes (product space, iterated expectation) -/
+
+/-- `proj` only reads column `j` of the mode array -/
+theorem proj_congr_col (k k' : Nat → Nat → ℝ) (dim j j' d : Nat) (h : ∀ c, k c j = k' c j') :
+    proj k dim j d = proj k' dim j' d := by
+  unfold proj
+  rw [absSq_real, absSq_real]
+  simp only [h]
+
+/-- second moment with random modes `K` on their own probability space `Ωk` and amplitudes on `Ωz`
+    (independence = product structure): the expectation over the amplitudes, then over the modes -/
+theorem variance_random_modes {Ωk Ωz : Type} [MeasurableSpace Ωk] [MeasurableSpace Ωz]
+    (μk : Measure Ωk) (μz : Measure Ωz)
+    (meanU var : ℝ) (hvar : 0 ≤ var) (K : Ωk → Nat → Nat → ℝ) {dim d : Nat} (N : Nat) (hd : d < dim)
+    (Z1 Z2 : Nat → Ωz → ℝ)
+    (hL1 : ∀ j < N, MemLp (Z1 j) 2 μz) (hL2 : ∀ j < N, MemLp (Z2 j) 2 μz)
+    (h11 : ∀ i < N, ∀ j < N, ∫ ω, Z1 i ω * Z1 j ω ∂μz = if i = j then 1 else 0)
+    (h22 : ∀ i < N, ∀ j < N, ∫ ω, Z2 i ω * Z2 j ω ∂μz = if i = j then 1 else 0)
+    (h12 : ∀ i < N, ∀ j < N, ∫ ω, Z1 i ω * Z2 j ω ∂μz = 0)
+    (hint : ∀ j < N, Integrable (fun ωk => proj (K ωk) dim j d ^ 2) μk) (x : Nat → ℝ) :
+    ∫ ωk, ∫ ωz, (genField meanU var (K ωk) (fun j => Z1 j ωz) (fun j => Z2 j ωz) dim N d x - meanU * e1 d) ^ 2 ∂μz ∂μk
+      = meanU ^ 2 * (var / (N : ℝ)) * ∑ j ∈ range N, ∫ ωk, proj (K ωk) dim j d ^ 2 ∂μk := by
+  simp only [variance_given_modes μz meanU var hvar _ N hd Z1 Z2 hL1 hL2 h11 h22 h12 x]
+  rw [integral_const_mul, integral_finsetSum _ fun j hj => hint j (mem_range.mp hj)]
+
+/-- **mean, random modes**: whatever the distribution of the mode set (independent of zero-mean
+    amplitudes), the expectation of the field is `mean_u · e1` -/
+theorem mean_random_modes {Ωk Ωz : Type} [MeasurableSpace Ωk] [MeasurableSpace Ωz]
+    (μk : Measure Ωk) [IsProbabilityMeasure μk] (μz : Measure Ωz) [IsProbabilityMeasure μz]
+    (meanU var : ℝ) (K : Ωk → Nat → Nat → ℝ) {dim d : Nat} (N : Nat) (hd : d < dim)
+    (Z1 Z2 : Nat → Ωz → ℝ)
+    (hi1 : ∀ j < N, Integrable (Z1 j) μz) (hi2 : ∀ j < N, Integrable (Z2 j) μz)
+    (hm1 : ∀ j < N, ∫ ω, Z1 j ω ∂μz = 0) (hm2 : ∀ j < N, ∫ ω, Z2 j ω ∂μz = 0) (x : Nat → ℝ) :
+    ∫ ωk, ∫ ωz, genField meanU var (K ωk) (fun j => Z1 j ωz) (fun j => Z2 j ωz) dim N d x ∂μz ∂μk
+      = meanU * (if d = 0 then 1 else 0) := by
+  simp only [mean_given_modes μz meanU var _ N hd Z1 Z2 hi1 hi2 hm1 hm2 x]
+  simp
+
+/-- **variance split, 2-D, end to end**: wave vectors `k_j = R_j · (cos A_j, sin A_j)` with non-zero
+    radii and direction angles uniformly distributed on `(0, 2π]`, amplitudes square-integrable,
+    uncorrelated with unit second moment and living on an independent space: the second moment of
+    `u_d(x) − mean_u e1_d` is `mean_u² · var · 3/8` for `d = 0` and `mean_u² · var · 1/8` for `d = 1`. -/
+theorem variance_split_2d_total {Ωk Ωz : Type} [MeasurableSpace Ωk] [MeasurableSpace Ωz]
+    (μk : Measure Ωk) (μz : Measure Ωz)
+    (meanU var : ℝ) (hvar : 0 ≤ var) (N : Nat) (hN : 0 < N)
+    (R A : Nat → Ωk → ℝ) (hR : ∀ j < N, ∀ ω, R j ω ≠ 0)
+    (hA : ∀ j < N, AEMeasurable (A j) μk)
+    (hlaw : ∀ j < N, μk.map (A j) = ENNReal.ofReal (1 / (2 * Real.pi)) • volume.restrict (Set.Ioc 0 (2 * Real.pi)))
+    (Z1 Z2 : Nat → Ωz → ℝ)
+    (hL1 : ∀ j < N, MemLp (Z1 j) 2 μz) (hL2 : ∀ j < N, MemLp (Z2 j) 2 μz)
+    (h11 : ∀ i < N, ∀ j < N, ∫ ω, Z1 i ω * Z1 j ω ∂μz = if i = j then 1 else 0)
+    (h22 : ∀ i < N, ∀ j < N, ∫ ω, Z2 i ω * Z2 j ω ∂μz = if i = j then 1 else 0)
+    (h12 : ∀ i < N, ∀ j < N, ∫ ω, Z1 i ω * Z2 j ω ∂μz = 0) (x : Nat → ℝ) (d : Nat) (hd : d < 2) :
+    ∫ ωk, ∫ ωz, (genField meanU var (fun c j => R j ωk * dir2 (A j ωk) c j) (fun j => Z1 j ωz) (fun j => Z2 j ωz)
+        2 N d x - meanU * e1 d) ^ 2 ∂μz ∂μk
+      = meanU ^ 2 * var * (if d = 0 then 3 / 8 else 1 / 8) := by
+  have hpi : (0:ℝ) ≤ 2 * Real.pi := by positivity
+  -- the squared projector as a function of the direction angle
+  set g : ℝ → ℝ := fun a => if d = 0 then Real.sin a ^ 4 else Real.sin a ^ 2 * Real.cos a ^ 2 with hg
+  have hgc : Continuous g := by
+    simp only [hg]; split <;> fun_prop
+  have hproj : ∀ j < N, ∀ ω, proj (fun c j => R j ω * dir2 (A j ω) c j) 2 j d ^ 2 = g (A j ω) := by
+    intro j hj ω
+    rw [proj_congr_col _ (fun c j' => R j ω * dir2 (A j ω) c j') 2 j 0 d (fun c => rfl)]
+    have hd' : d = 0 ∨ d = 1 := by omega
+    rcases hd' with rfl | rfl
+    · rw [proj_dir2_0 _ _ (hR j hj ω)]; simp only [hg, if_true]; ring
+    · rw [proj_dir2_1 _ _ (hR j hj ω)]; simp only [hg]; norm_num; ring
+  have hmean : ∀ j < N, ∫ ω, g (A j ω) ∂μk = if d = 0 then 3 / 8 else 1 / 8 := by
+    intro j hj
+    rw [← integral_map (hA j hj) hgc.aestronglyMeasurable, hlaw j hj, integral_smul_measure,
+      ← intervalIntegral.integral_of_le hpi, ENNReal.toReal_ofReal (by positivity)]
+    simp only [hg]
+    have hpi' : Real.pi ≠ 0 := Real.pi_ne_zero
+    split
+    · rw [integral_sin_pow_four_two_pi]; simp only [smul_eq_mul]; field_simp; ring
+    · rw [integral_sin_sq_mul_cos_sq_two_pi]; simp only [smul_eq_mul]; field_simp; ring
+  have hint : ∀ j < N, Integrable (fun ω => proj (fun c j => R j ω * dir2 (A j ω) c j) 2 j d ^ 2) μk := by
+    intro j hj
+    simp only [hproj j hj]
+    have : Integrable g (μk.map (A j)) := by
+      rw [hlaw j hj]
+      refine Integrable.smul_measure ?_ ENNReal.ofReal_ne_top
+      have := hgc.integrableOn_Icc (a := (0:ℝ)) (b := 2 * Real.pi) (μ := volume)
+      exact this.mono_set Set.Ioc_subset_Icc_self
+    exact (integrable_map_measure hgc.aestronglyMeasurable (hA j hj)).mp this
+  rw [variance_random_modes μk μz meanU var hvar _ N hd Z1 Z2 hL1 hL2 h11 h22 h12 hint x]
+  have : ∀ j ∈ range N, ∫ ω, proj (fun c j => R j ω * dir2 (A j ω) c j) 2 j d ^ 2 ∂μk
+      = if d = 0 then 3 / 8 else 1 / 8 := by
+    intro j hj
+    simp only [hproj j (mem_range.mp hj)]
+    exact hmean j (mem_range.mp hj)
+  rw [sum_congr rfl this, sum_const, card_range, nsmul_eq_mul]
+  have hN' : (N : ℝ) ≠ 0 := Nat.cast_ne_zero.mpr (by omega)
+  field_simp
+
+/-- the squared projector components on the sphere as polynomials in `cos a, sin a, w` -/
+noncomputable def dir3sq (d : Nat) (a w : ℝ) : ℝ :=
+  if d = 0 then 1 + (-2 * Real.cos a ^ 2 + Real.cos a ^ 4) + (2 * Real.cos a ^ 2 - 2 * Real.cos a ^ 4) * w ^ 2
+      + Real.cos a ^ 4 * w ^ 4
+  else if d = 1 then Real.sin a ^ 2 * Real.cos a ^ 2 + (-2 * (Real.sin a ^ 2 * Real.cos a ^ 2)) * w ^ 2
+      + Real.sin a ^ 2 * Real.cos a ^ 2 * w ^ 4
+  else 0 + Real.cos a ^ 2 * w ^ 2 + (-Real.cos a ^ 2) * w ^ 4
+
+theorem proj_dir3_sq_eq (r a w : ℝ) (hr : r ≠ 0) (hw : w ∈ Set.uIcc (-1:ℝ) 1) (d : Nat) (hd : d < 3) :
+    (proj (fun c j => r * dir3 a w c j) 3 0 d) ^ 2 = dir3sq d a w := by
+  have h := proj_dir3_sq r a w hr hw
+  unfold dir3sq
+  interval_cases d
+  · simpa using h.1
+  · simpa using h.2.1
+  · simpa using h.2.2
+
+theorem dir3sq_avg (d : Nat) (hd : d < 3) :
+    (1 / (4 * Real.pi)) * ∫ a in (0:ℝ)..(2 * Real.pi), ∫ w in (-1:ℝ)..1, dir3sq d a w
+      = if d = 0 then 8 / 15 else 1 / 15 := by
+  have h := variance_split_3d 1 one_ne_zero
+  have e : ∀ a : ℝ, ∫ w in (-1:ℝ)..1, dir3sq d a w
+      = ∫ w in (-1:ℝ)..1, (proj (fun c j => 1 * dir3 a w c j) 3 0 d) ^ 2 :=
+    fun a => intervalIntegral.integral_congr fun w hw => (proj_dir3_sq_eq 1 a w one_ne_zero hw d hd).symm
+  simp only [e]
+  interval_cases d
+  · simpa using h.1
+  · simpa using h.2.1
+  · simpa using h.2.2
+
+/-- **variance split, 3-D, end to end**: wave vectors `k_j = R_j · (√(1−W_j²) cos A_j, √(1−W_j²) sin A_j, W_j)`
+    (the sampler's construction) with non-zero radii and `(A_j, W_j)` uniform on `(0,2π] × (−1,1]`,
+    amplitudes as in `variance_given_modes` on an independent space: the second moments of the three
+    components of `u(x) − mean_u e1` are `mean_u² · var · (8/15, 1/15, 1/15)`. -/
+theorem variance_split_3d_total {Ωk Ωz : Type} [MeasurableSpace Ωk] [MeasurableSpace Ωz]
+    (μk : Measure Ωk) (μz : Measure Ωz)
+    (meanU var : ℝ) (hvar : 0 ≤ var) (N : Nat) (hN : 0 < N)
+    (R A W : Nat → Ωk → ℝ) (hR : ∀ j < N, ∀ ω, R j ω ≠ 0) (hW : ∀ j < N, ∀ ω, W j ω ∈ Set.Icc (-1:ℝ) 1)
+    (hAW : ∀ j < N, AEMeasurable (fun ω => (A j ω, W j ω)) μk)
+    (hlaw : ∀ j < N, μk.map (fun ω => (A j ω, W j ω)) = ENNReal.ofReal (1 / (4 * Real.pi)) •
+      ((volume.restrict (Set.Ioc 0 (2 * Real.pi))).prod (volume.restrict (Set.Ioc (-1:ℝ) 1))))
+    (Z1 Z2 : Nat → Ωz → ℝ)
+    (hL1 : ∀ j < N, MemLp (Z1 j) 2 μz) (hL2 : ∀ j < N, MemLp (Z2 j) 2 μz)
+    (h11 : ∀ i < N, ∀ j < N, ∫ ω, Z1 i ω * Z1 j ω ∂μz = if i = j then 1 else 0)
+    (h22 : ∀ i < N, ∀ j < N, ∫ ω, Z2 i ω * Z2 j ω ∂μz = if i = j then 1 else 0)
+    (h12 : ∀ i < N, ∀ j < N, ∫ ω, Z1 i ω * Z2 j ω ∂μz = 0) (x : Nat → ℝ) (d : Nat) (hd : d < 3) :
+    ∫ ωk, ∫ ωz, (genField meanU var (fun c j => R j ωk * dir3 (A j ωk) (W j ωk) c j) (fun j => Z1 j ωz)
+        (fun j => Z2 j ωz) 3 N d x - meanU * e1 d) ^ 2 ∂μz ∂μk
+      = meanU ^ 2 * var * (if d = 0 then 8 / 15 else 1 / 15) := by
+  have hpi : (0:ℝ) ≤ 2 * Real.pi := by positivity
+  set g : ℝ × ℝ → ℝ := fun p => dir3sq d p.1 p.2 with hg
+  have hgc : Continuous g := by
+    simp only [hg, dir3sq]
+    split_ifs <;> fun_prop
+  have hproj : ∀ j < N, ∀ ω, proj (fun c j => R j ω * dir3 (A j ω) (W j ω) c j) 3 j d ^ 2 = g (A j ω, W j ω) := by
+    intro j hj ω
+    rw [proj_congr_col _ (fun c j' => R j ω * dir3 (A j ω) (W j ω) c j') 3 j 0 d (fun c => rfl)]
+    have hw : W j ω ∈ Set.uIcc (-1:ℝ) 1 := by rw [Set.uIcc_of_le (by norm_num)]; exact hW j hj ω
+    exact proj_dir3_sq_eq _ _ _ (hR j hj ω) hw d hd
+  have hgi : Integrable g ((volume.restrict (Set.Ioc 0 (2 * Real.pi))).prod (volume.restrict (Set.Ioc (-1:ℝ) 1))) := by
+    rw [Measure.prod_restrict]
+    have : IntegrableOn g (Set.Icc 0 (2 * Real.pi) ×ˢ Set.Icc (-1:ℝ) 1) ((volume : Measure ℝ).prod (volume : Measure ℝ)) :=
+      hgc.continuousOn.integrableOn_compact (isCompact_Icc.prod isCompact_Icc)
+    exact this.mono_set (Set.prod_mono Set.Ioc_subset_Icc_self Set.Ioc_subset_Icc_self)
+  have hmean : ∀ j < N, ∫ ω, g (A j ω, W j ω) ∂μk = if d = 0 then 8 / 15 else 1 / 15 := by
+    intro j hj
+    rw [← integral_map (hAW j hj) hgc.aestronglyMeasurable, hlaw j hj, integral_smul_measure,
+      integral_prod g hgi, ENNReal.toReal_ofReal (by positivity)]
+    simp only [hg]
+    have e : ∀ a : ℝ, ∫ w in Set.Ioc (-1:ℝ) 1, dir3sq d a w = ∫ w in (-1:ℝ)..1, dir3sq d a w :=
+      fun a => (intervalIntegral.integral_of_le (by norm_num)).symm
+    simp only [e]
+    rw [← intervalIntegral.integral_of_le hpi, smul_eq_mul]
+    exact dir3sq_avg d hd
+  have hint : ∀ j < N, Integrable (fun ω => proj (fun c j => R j ω * dir3 (A j ω) (W j ω) c j) 3 j d ^ 2) μk := by
+    intro j hj
+    simp only [hproj j hj]
+    have : Integrable g (μk.map (fun ω => (A j ω, W j ω))) := by
+      rw [hlaw j hj]
+      exact hgi.smul_measure ENNReal.ofReal_ne_top
+    exact (integrable_map_measure hgc.aestronglyMeasurable (hAW j hj)).mp this
+  rw [variance_random_modes μk μz meanU var hvar _ N hd Z1 Z2 hL1 hL2 h11 h22 h12 hint x]
+  have : ∀ j ∈ range N, ∫ ω, proj (fun c j => R j ω * dir3 (A j ω) (W j ω) c j) 3 j d ^ 2 ∂μk
+      = if d = 0 then 8 / 15 else 1 / 15 := by
+    intro j hj
+    simp only [hproj j (mem_range.mp hj)]
+    exact hmean j (mem_range.mp hj)
+  rw [sum_congr rfl this, sum_const, card_range, nsmul_eq_mul]
+  have hN' : (N : ℝ) ≠ 0 := Nat.cast_ne_zero.mpr (by omega)
+  field_simp
 
 end GSV.Props.C16
